@@ -4,16 +4,16 @@
    qbase::flow exactly like qconnection::space::FlowControlledDataStreams.  Definitions only.
 
    Every function takes a [variant]: [as_is] is the code as it stands, the other flags switch in
-   the repaired branch of one finding (F12, F13, F26, F27, F33), so the as-is and the repaired model are the
+   the repaired branch of one finding (F12, F13, F26, F27, F33, F34), so the as-is and the repaired model are the
    same text and the stream registry selects one by the name of the run function. *)
 From Coq Require Import List NArith ZArith Bool.
 From GQ Require Export Lib.Base Model.RecvBuf Model.Sid Model.Flow.
 Import ListNotations.
 Local Open Scope N_scope.
 
-Record variant := mkvar { fix12 : bool; fix13 : bool; fix26 : bool; fix27 : bool; fix33 : bool }.
-Definition as_is : variant := mkvar false false false false false.
-Definition fixed : variant := mkvar true true true true true.
+Record variant := mkvar { fix12 : bool; fix13 : bool; fix26 : bool; fix27 : bool; fix33 : bool; fix34 : bool }.
+Definition as_is : variant := mkvar false false false false false false.
+Definition fixed : variant := mkvar true true true true true true.
 
 (* the six initial flow-control parameters plus the two stream counts of one endpoint *)
 Record params := mkp { p_msb : N; p_msu : N; p_md : N; p_sdbl : N; p_sdbr : N; p_sdu : N }.
@@ -763,7 +763,7 @@ Definition ds_handshake (v : variant) (s : ds) (rejected : bool) : ds * list Z :
   let outs' := revise_outs v s rejected in
   let l' := match revise_max_streams (d_l s) rejected (p_msb (d_rem s)) (p_msu (d_rem s)) with
             | Some l' => l' | None => d_l s end in
-  let fs' := sc_revise (d_fs s) rejected (p_md (d_rem s)) in
+  let fs' := sc_revise_with (fix34 v) (d_fs s) rejected (p_md (d_rem s)) in      (* F34 *)
   (mkds (d_role s) (d_loc s) (d_rem s) None true (d_closed s) l' (d_r s) outs' (d_rcv s)
         (d_lq s) (d_cursor s) fs' (d_fr s) (d_emitted s), [1; 0]%Z).
 
